@@ -76,7 +76,7 @@ def run(chk):
             m = rng.getrandbits(56) | (rng.randint(1, 15) << 52)
             m &= (1 << 56) - 1
             if i % 3 == 0:
-                m = (m | (1 << 52)) & ((0x1F << 52) - 1) | (rng.choice([0, 4, 12, 5, 3]))  # first digit 1: 3 bits rounded away
+                m = (m & ((1 << 52) - 1)) | (1 << 52) | (rng.choice([0, 4, 12, 5, 3]))  # first digit 1: 3 bits rounded away
             g = (rng.getrandbits(1) << 63) | (rng.randint(1, 126) << 56) | m
             x = py_decode(g)
             ev.append({"kind": "g", "g": dig(g), "x": dig(x), "re": dig(py_encode(x))})
